@@ -247,6 +247,28 @@ def run(unit):
                             vmetas.append(m_)
                         for kind, detail in check_file(vparts, vmetas, '\n', r):
                             r.violation(kind + ' (after a rejected file, same parser object)', {'parts': parts, 'sep': sep, 'then': vparts}, detail, size=sum(len(p) for p in parts))
+        # the module-level helpers must raise what the parser objects raise (class of the offending member)
+        import hpl.parser as HP
+
+        for parts in ([bad], [POOL[0], bad], [bad, POOL[3]]):
+            text = '\n'.join(parts)
+            r.count('transitions', 2)
+            st, _ = impl.try_parse('spec', text)
+            try:
+                HP.parse_specification(text)
+                got = 'ok'
+            except Exception as e:  # noqa: BLE001
+                got = impl.outcome_class(e)
+            if got != st:
+                r.violation('parse_specification (module level) disagrees with the specification parser object', {'parts': parts, 'sep': '\n', 'module_level': True}, f'{text!r}: {got} vs {st} (member alone: {cls})', size=len(text))
+        if unit[2] < 6:
+            try:
+                HP.parse_property(bad)
+                got = 'ok'
+            except Exception as e:  # noqa: BLE001
+                got = impl.outcome_class(e)
+            if got != single(bad)[0]:
+                r.violation('parse_property (module level) disagrees with the property parser object', {'parts': [bad], 'sep': '\n', 'module_level': True}, f'{bad!r}: {got} vs {single(bad)[0]}', size=len(bad))
         # dangling annotation after the last property
         for sep in SEPS:
             parts = [POOL[0], POOL[2]]
@@ -394,7 +416,7 @@ def replay(w):
 def describe(tier):
     b = bounds(tier)
     return {
-        'rule': f"all sequences of 1..{b['seq_len']} properties from a 14-text pool (and {b['seq_len'] + 1}..{b['seq_len_small_pool']} from a 4-text sub-pool) x every assignment of one of the 16 annotation arrangements (subsets and orders of id/title/description) to <= {b['annotated_members']} members, plus all members fully annotated, x 3 separators; one-invalid-member variants (16 kinds x every index in files of 1..3) and dangling/empty/whitespace files; after every rejected file a valid annotated file is parsed with the same parser object (history of length 2); 4 x 4 pairs of malformed members that could repair each other (unterminated string / stray quote) x 3 fillers x 3 separators; the module-level parse_specification / parse_property called twice on the same text with the first result's metadata edited in between. Each file is compared index by index (typed lift and metadata) with the property parser on the parts. Plus 16 unusual white-space / line-break characters (CR, VT, FF, FS, GS, RS, NEL, U+2028, U+2029, TAB, NBSP, BOM, NUL, US, ZWSP, CRLF) x 9 member shapes (inside titles, descriptions, string literals, after an annotation, between tokens, leading, trailing) x 0-2 companions x every position x 3 separators. A state = one file text; a transition = one specification parse.",
+        'rule': f"all sequences of 1..{b['seq_len']} properties from a 14-text pool (and {b['seq_len'] + 1}..{b['seq_len_small_pool']} from a 4-text sub-pool) x every assignment of one of the 16 annotation arrangements (subsets and orders of id/title/description) to <= {b['annotated_members']} members, plus all members fully annotated, x 3 separators; one-invalid-member variants (16 kinds x every index in files of 1..3) and dangling/empty/whitespace files; after every rejected file a valid annotated file is parsed with the same parser object (history of length 2); 4 x 4 pairs of malformed members that could repair each other (unterminated string / stray quote) x 3 fillers x 3 separators; the module-level parse_specification / parse_property called twice on the same text with the first result's metadata edited in between. Each file is compared index by index (typed lift and metadata) with the property parser on the parts. Plus 16 unusual white-space / line-break characters (CR, VT, FF, FS, GS, RS, NEL, U+2028, U+2029, TAB, NBSP, BOM, NUL, US, ZWSP, CRLF) x 9 member shapes (inside titles, descriptions, string literals, after an annotation, between tokens, leading, trailing) x 0-2 companions x every position x 3 separators. A slice of the line-break cases and every invalid member (alone and with a valid neighbour) also go through the module-level helpers parse_specification / parse_property, which must give (or raise) what the parser objects give. A state = one file text; a transition = one specification parse.",
         'bounds': b,
         'exhaustive': True,
         'assumptions': ['the property parser on each part alone is the reference (differential oracle); its own correctness is C01'],
